@@ -53,8 +53,9 @@ func Repair(ff []Feature) []Feature {
 				for i, loc := range locs {
 					gg[indices[i]].Loc = loc
 				}
+				indices = indices[:len(locs)]
 			}
-			keep = append(keep, indices[:len(locs)]...)
+			keep = append(keep, indices...)
 		}
 	}
 
